@@ -91,6 +91,10 @@ def save_xye(
     to_save = np.c_[da.coords[coord].values, da.values, np.sqrt(da.variances)]
     if header is GenerateHeader:
         header = _generate_xye_header(da, coord)
+    # NumPy prefixes the text after each '\n' with the comment marker, but a lone
+    # carriage return is also a line break for every reader in text mode; the text
+    # after it would be parsed as data.
+    header = header.replace('\r\n', '\n').replace('\r', '\n')
 
     get_logger().info(
         "Saving data with unit %s and coordinate '%s' to XYE file %s",
